@@ -139,5 +139,11 @@ PROPS["C16"] = {
     "units": [
         {"name": "c16-connectedness", "pkg": ROOT, "run": "TestVerifC16Conn", "instr": ["connectedness_manager.go", "internal/notify/notify.go"],
          "timeout": {"quick": 600, "thorough": 3400}},
+        {"name": "c16-notify", "pkg": "internal/notify", "run": "TestVerifC16Notify", "instr": ["internal/notify/notify.go"],
+         "timeout": {"quick": 600, "thorough": 2400}},
+        {"name": "c16-lifecycle", "pkg": "pkg/lifecycle", "run": "TestVerifC16Lifecycle", "instr": ["pkg/lifecycle/manager.go", "internal/notify/notify.go"],
+         "timeout": {"quick": 600, "thorough": 2400}},
+        {"name": "c16-peercache", "pkg": "pkg/tinder", "run": "TestVerifC16PeerCache", "instr": ["pkg/tinder/peer_cache.go", "internal/notify/notify.go"],
+         "timeout": {"quick": 600, "thorough": 2400}},
     ],
 }
